@@ -608,6 +608,8 @@ pub fn hash_script_data(
     cost_models: &Costmdls,
     datums: Option<PlutusList>,
 ) -> ScriptDataHash {
+    // an empty datum list is not written into a witness set: it contributes what an absent one does
+    let datums = datums.filter(|d| d.len() > 0);
     let mut buf = Vec::new();
     if redeemers.len() == 0 && datums.is_some() {
         /*
